@@ -247,8 +247,15 @@ fn dce_block_with_live(
                 };
                 // If the type-switch binding variable is not used in any case/default
                 // blocks, drop the binding (switch x := e.(type) -> switch e.(type)).
+                // "Used" is judged on the clauses themselves: their live-in sets also hold
+                // whatever is live after the switch, and Go rejects a binding no clause uses.
                 let bind = bind.filter(|bname| {
-                    !(!cases_live_in.contains(bname) && !default_live_in.contains(bname))
+                    new_cases
+                        .iter()
+                        .any(|(_t, b)| free_vars_in_block(b).contains(bname))
+                        || default_b
+                            .as_ref()
+                            .is_some_and(|b| free_vars_in_block(b).contains(bname))
                 });
                 add_uses_expr(&mut live, &expr);
                 live.extend(cases_live_in);
